@@ -61,3 +61,78 @@ func VC12_Collector() {
 		}
 	}
 }
+
+// an error to add: a leaf, or an aggregate of leaves (a Stack handed to the
+// collector); atoms = what the collector must list for it, in supply order
+func vc12agg(i int) (error, []error, int) {
+	switch vf.Choice("shape", 3) {
+	case 1:
+		a, b := error(&vc12ptr{10 + i}), error(vc12A)
+		return ers.Join(a, b), []error{a, b}, 0
+	case 2:
+		a := error(&vc12ptr{20 + i})
+		return ers.Wrap(a, "note"), []error{a}, 1
+	}
+	e := vc12leaf(i)
+	if e == nil {
+		return nil, nil, 0
+	}
+	return e, []error{e}, 0
+}
+
+// Collector under concurrency: adders (leaves and aggregates) and a reader;
+// at quiescence it holds exactly what was added.
+func VC12_CollectorConc() {
+	ec := New()
+	n := 2
+	if vf.Thorough() {
+		n = 3
+	}
+	var want []error
+	notes := 0
+	errs := make([]error, n)
+	for i := 0; i < n; i++ {
+		e, atoms, nn := vc12agg(i)
+		errs[i] = e
+		want = append(want, atoms...)
+		notes += nn
+	}
+	for i := 0; i < n; i++ {
+		i := i
+		vf.Go(func() { ec.Add(errs[i]) })
+	}
+	vf.Go(func() {
+		l := ec.Len()
+		r := ec.Resolve()
+		vf.Assert(l <= len(want)+notes, "collector-len-exceeds-adds")
+		if r != nil {
+			vf.Assert(!errors.Is(r, vc12C), "collector-errors-is-finds-unrelated-sentinel")
+		}
+	})
+	vf.Quiesce()
+	vf.Reach("conc-quiescent")
+	r := ec.Resolve()
+	vf.Assert((r == nil) == (len(want) == 0), "collector-resolve-nil-iff-no-error-added")
+	vf.Assert(ec.Len() == len(want)+notes, "collector-len-differs-from-non-nil-adds")
+	if r == nil {
+		return
+	}
+	un := ers.Unwind(r)
+	vf.Assert(len(un) == len(want)+notes, "collector-unwind-length")
+	for _, e := range want {
+		cnt := 0
+		for _, u := range un {
+			if u == e {
+				cnt++
+			}
+		}
+		wc := 0
+		for _, w := range want {
+			if w == e {
+				wc++
+			}
+		}
+		vf.Assert(cnt == wc, "collector-lost-or-duplicated-an-added-error")
+		vf.Assert(errors.Is(r, e), "collector-errors-is-misses-an-added-error")
+	}
+}
